@@ -288,4 +288,6 @@ def run(ctx):
     from rules import c15 as _c15
     for key, ok_, det_, loc_ in _c15.attr_walk_checks(F):
         rep.check(r2, ok_, 'stun:' + key, det_, loc_)
+    hand_over_sound(ctx, 'C03')
+
 
